@@ -226,3 +226,83 @@ def run(model, col, tier):
             if isinstance(c, ast.Call) and last_attr(c) in ("__FormatReference", "__FormatLabel") and c.args and isinstance(c.args[0], ast.Attribute) and isinstance(c.args[0].value, ast.Name) and c.args[0].value.id == pn:
                 col.check(c.args[0].attr != "Parent", "R17.3", f"{IR}::InstructionPrinter.{name} formats {c.args[0].attr}", "an operand of the instruction is printed",
                           f"`{unparse(c)}` prints the instruction's parent block where an operand belongs", IR, c)
+    # ---------------- R17.4 nothing process-specific is stored --------------------------------------
+    # str hashes are salted per process and id() is an address: a name or key derived from them and stored in the file
+    # means something else to the process that loads it.  (hash() inside __hash__ only serves in-process containers.)
+    probe = ast.parse("def f(n):\n    return '@' + str(hash(n))\n")
+    if len(_identity_calls(probe)) != 1:
+        raise AnalysisError("R17.4: the identity-call detector does not fire on its positive example")
+    for rel in ("nsl/passes/LowerToIR.py", IR, "nsl/types.py", "nslc.py"):
+        fi = model.files.get(rel)
+        if fi is None:
+            raise AnchorMissing(rel)
+        hits = _identity_calls(fi.tree)
+        col.check(not hits, "R17.4", f"{rel}:: stores nothing derived from hash()/id()", "no hash()/id() outside __hash__/__eq__",
+                  (f"`{' '.join(unparse(hits[0]).split())[:70]}` (line {hits[0].lineno})" if hits else "") + ": the value differs from process to process, so what is written to a module file "
+                  "(function names, keys) does not match what the loading process derives", rel, hits[0] if hits else fi.tree)
+    # ---------------- R17.5 the runner hands the VM what the signature says -------------------------
+    from ..miniev import CannotEval, ev
+    from ..paths import paths
+
+    nslr = model.file("nslr.py")
+    runf = nslr.functions.get("run")
+    if runf is None:
+        raise AnchorMissing("nslr.py::run")
+    loop = next((l for l in ast.walk(runf) if isinstance(l, ast.For) and "Arguments" in unparse(l.iter)), None)
+    tnames = [x.id for x in ast.walk(loop.target) if isinstance(x, ast.Name)] if loop is not None else []
+    if loop is None or len(tnames) < 2 or ".items()" not in unparse(loop.iter):
+        raise AnchorMissing("nslr.py::run loop over entryPoint.Type.Arguments.items()")
+    # items() yields (name, type): the type is the last name bound by the loop target, however it is nested (enumerate(..))
+    tname = [x.id for x in sorted((x for x in ast.walk(loop.target) if isinstance(x, ast.Name)), key=lambda x: (x.lineno, x.col_offset))][-1]
+    int_strs = sorted({c.value for r in ast.walk(model.cls(IR, "IntegerType").find_method("__str__")[1]) if isinstance(r, ast.Return) for c in ast.walk(r) if isinstance(c, ast.Constant) and isinstance(c.value, str)})
+    flt_strs = sorted({c.value for r in ast.walk(model.cls(IR, "FloatType").find_method("__str__")[1]) if isinstance(r, ast.Return) for c in ast.walk(r) if isinstance(c, ast.Constant) and isinstance(c.value, str)})
+    kinds = [("IntegerType", s, "<int>") for s in int_strs] + [("FloatType", s, "<float>") for s in flt_strs]
+    col.floor("R17.5", "scalar IR types the runner converts", len(kinds), 3)
+    for cname, text, want in kinds:
+        env = {"int": "<int>", "float": "<float>", f"str({tname})": text, f"{tname}.IsScalar()": True, f"{tname}.Unsigned": text.startswith("u")}
+        for k in ("IntegerType", "FloatType", "ScalarType", "Type"):
+            for pre in ("LinearIR.", ""):
+                env[f"isinstance({tname}, {pre}{k})"] = (k == cname or k in ("ScalarType", "Type"))
+
+        def fold(t, env=env):
+            try:
+                return bool(ev(t, env))
+            except CannotEval:
+                return None
+
+        got = set()
+        for evs, status in paths(loop.body, fold=fold):
+            e2 = dict(env)
+            conv = "nothing"
+            for e in evs:
+                if e.kind != "stmt" or not isinstance(e.node, ast.Assign):
+                    continue
+                tgt, val = e.node.targets[0], e.node.value
+                if isinstance(tgt, ast.Name):
+                    try:
+                        e2[tgt.id] = ev(val, e2)
+                    except CannotEval:
+                        e2.pop(tgt.id, None)
+                elif isinstance(tgt, ast.Subscript) and isinstance(val, ast.Call):
+                    try:
+                        f_ = ev(val.func, e2)
+                    except CannotEval:
+                        f_ = unparse(val.func)
+                    conv = f_ if len(val.args) == 1 and not val.keywords else f"{f_} with extra arguments ({unparse(val)})"
+                elif isinstance(tgt, ast.Subscript):
+                    conv = f"`{unparse(val)}`"
+            got.add(conv)
+        col.check(got == {want}, "R17.5", f"nslr.py::run converts a `{text}` argument", f"{want[1:-1]}(<text>) for an IR {cname} parameter",
+                  f"a `{text}` parameter ({cname}) is handed to the VM as {sorted(got)}: the stored module is invoked with other values (or a string is refused) than the in-memory one", "nslr.py", loop)
+
+
+def _identity_calls(tree):
+    out = []
+    skip = set()
+    for f in ast.walk(tree):
+        if isinstance(f, ast.FunctionDef) and f.name in ("__hash__", "__eq__"):
+            skip |= {id(x) for x in ast.walk(f)}
+    for c in ast.walk(tree):
+        if isinstance(c, ast.Call) and isinstance(c.func, ast.Name) and c.func.id in ("hash", "id") and id(c) not in skip:
+            out.append(c)
+    return out
